@@ -141,6 +141,24 @@ std::variant<StreamErrorElement, QXmppError> StreamErrorElement::fromDom(const Q
 }
 /// \endcond
 
+// Returns how many bytes at the end of \a data belong to a UTF-8 sequence that is
+// still incomplete (i.e. the rest of the character arrives with the next read).
+static int incompleteUtf8SuffixLength(const QByteArray &data)
+{
+    const int size = int(data.size());
+    for (int i = 1; i <= 3 && i <= size; ++i) {
+        const auto byte = static_cast<unsigned char>(data.at(size - i));
+        if ((byte & 0xC0) == 0x80) {
+            // continuation byte, the lead byte is further to the front
+            continue;
+        }
+        // lead byte (or ASCII): number of bytes the whole sequence consists of
+        const int sequenceLength = byte >= 0xF0 ? 4 : (byte >= 0xE0 ? 3 : (byte >= 0xC0 ? 2 : 1));
+        return sequenceLength > i ? i : 0;
+    }
+    return 0;
+}
+
 XmppSocket::XmppSocket(QObject *parent)
     : QXmppLoggable(parent)
 {
@@ -161,6 +179,7 @@ void XmppSocket::setSocket(QSslSocket *socket)
         // do not emit started() with direct TLS (this happens in encrypted())
         if (!m_directTls) {
             m_dataBuffer.clear();
+            m_undecodedBytes.clear();
             m_streamOpenElement.clear();
             Q_EMIT started();
         }
@@ -169,6 +188,7 @@ void XmppSocket::setSocket(QSslSocket *socket)
         debug(u"Socket encrypted"_s);
         // this happens with direct TLS or STARTTLS
         m_dataBuffer.clear();
+        m_undecodedBytes.clear();
         m_streamOpenElement.clear();
         Q_EMIT started();
     });
@@ -176,7 +196,13 @@ void XmppSocket::setSocket(QSslSocket *socket)
         warning(u"Socket error: "_s + m_socket->errorString());
     });
     QObject::connect(socket, &QSslSocket::readyRead, this, [this]() {
-        processData(QString::fromUtf8(m_socket->readAll()));
+        // A read may end in the middle of a multi-byte UTF-8 character. Only decode
+        // complete characters and keep the incomplete rest for the next read.
+        m_undecodedBytes.append(m_socket->readAll());
+        const int complete = int(m_undecodedBytes.size()) - incompleteUtf8SuffixLength(m_undecodedBytes);
+        const auto text = QString::fromUtf8(m_undecodedBytes.left(complete));
+        m_undecodedBytes.remove(0, complete);
+        processData(text);
     });
 }
 
